@@ -1,6 +1,6 @@
 (** C09 -- sizes, change-rate order and unit values are recovered from any regular grid. *)
-From Coq Require Import List Arith Lia Bool Permutation Sorted.
-Require Import V.Base.ListAux V.Base.Radix V.Base.Matrix V.Base.NdArray V.Usid.SortOrder V.Usid.ToND V.Usid.ToNDProof V.Usid.Grid V.Usid.UnitValues V.Usid.UnitValuesGrid.
+From Coq Require Import List Arith Lia Bool Permutation Sorted ZArith.
+Require Import V.Base.ListAux V.Base.Radix V.Base.Matrix V.Base.NdArray V.Usid.SortOrder V.Usid.ToND V.Usid.ToNDProof V.Usid.Grid V.Usid.UnitValues V.Usid.UnitValuesGrid V.Usid.SpecInds.
 Import ListNotations.
 
 (** For a regular grid with sizes [sz] (file order) stored in ANY rate order [order] (any permutation, any number of
@@ -81,3 +81,23 @@ Theorem C09_unit_values_of_a_tiled_row :
   unit_values_row dv (tile (repeat_each c st) t) vals = Some (map (fun i => nth (i * st) vals dv) (seq 0 (length c))).
 Proof. intros c st t H1 H2 H3 H4 V dv vals. exact (unit_values_row_grid c st t H1 H2 H3 H4 dv vals). Qed.
 Print Assumptions C09_unit_values_of_a_tiled_row.
+
+(** Values -> indices.  For a regular grid with ANY number of dimensions, sizes >= 1, in ANY storage order (not more
+    dimensions than points), whose values are pairwise distinct within each dimension: create_spec_inds_from_vals rebuilds
+    exactly the index matrix of the grid (the column loop is the mixed-radix successor: every changed position but the
+    last wraps to 0, the last is incremented). *)
+Theorem C09_indices_rebuilt_from_values :
+  forall (sz so : list nat) (F : nat -> nat -> Z), wf_grid sz so ->
+  length sz <= prod (radices sz so) -> 0 < length sz ->
+  (forall d x y, x < nth d sz 1 -> y < nth d sz 1 -> F d x = F d y -> x = y) ->
+  spec_inds_from_vals (map (fun d => map (F d) (grid_row sz so d)) (seq 0 (length sz))) = grid_spec sz so.
+Proof. exact spec_inds_from_vals_grid. Qed.
+Print Assumptions C09_indices_rebuilt_from_values.
+
+(** its arithmetic core: the update rule applied to the positions where the digits of n and n+1 differ IS the successor *)
+Theorem C09_update_is_mixed_radix_successor :
+  forall rs n, Forall (fun r => 0 < r) rs -> S n < prod rs ->
+  let ds := digits rs n in let ds' := digits rs (S n) in
+  upd (filter (fun t => negb (Nat.eqb (nth t ds' 0) (nth t ds 0))) (seq 0 (length rs))) ds = ds'.
+Proof. exact upd_succ. Qed.
+Print Assumptions C09_update_is_mixed_radix_successor.
